@@ -163,6 +163,9 @@ type dgram struct {
 	// with the time-service server SPI and algorithm is present and its MAC does not verify /
 	// verifies; authMalformed: the option's data length is not 28
 	authInvalid, authValid, authMalformed bool
+	// SCION, re-framed packets (gen_reframe.go): the NTP header the UDP length field delimits from the
+	// start of the L4 data was written by the harness acting as an on-path attacker without keys
+	forgedHdr bool
 }
 
 type peer struct {
@@ -977,7 +980,7 @@ func recordIP(c *lib.Ctx, tag string, cfg exchCfg, res exchResult) int {
 	// judged by the property's own predicate on the bytes the peer sent
 	if accepted {
 		if cands := explain(p, cfg, res); len(cands) > 0 {
-			echoOK, authOK, addrOK := false, false, false
+			echoOK, authOK, addrOK, hdrOK := false, false, false, false
 			var descr []string
 			for _, u := range cands {
 				d := res.sent[u.idx]
@@ -991,6 +994,9 @@ func recordIP(c *lib.Ctx, tag string, cfg exchCfg, res exchResult) int {
 				if d.wire == nil || d.addrOK {
 					addrOK = true
 				}
+				if !(d.forgedHdr && (cfg.nts || cfg.spaoKey)) {
+					hdrOK = true
+				}
 				descr = append(descr, fmt.Sprintf("datagram %d read as interleaved=%v: origin=%s auth-invalid=%v from-queried-host-to-client=%v", u.idx, u.il, f64(be64(d.b[24:])), d.authInvalid, d.wire == nil || d.addrOK))
 			}
 			detail := map[string]any{"used": descr, "request_interleaved": res.ri.interleavedRq, "request_tx": f64(res.ri.tx),
@@ -1003,6 +1009,11 @@ func recordIP(c *lib.Ctx, tag string, cfg exchCfg, res exchResult) int {
 			if !addrOK {
 				c.Fail("C05:scion:accepted-response-from-other-host",
 					"the SCION client took its measurement from a datagram whose source is not the queried ISD-AS and host (as an IP address, an IPv4 address and its IPv4-mapped form being the same) or which is not addressed to the client",
+					[]string{opReq, op}, detail)
+			}
+			if !hdrOK {
+				c.Fail("C05:scion:evaluated-header-not-authenticated",
+					"a SCION client with NTS and/or the packet authenticator key took its measurement from an NTP header written by an on-path attacker without keys: the authenticator was verified over other bytes of the datagram than the header that was evaluated (UDP length field smaller than the L4 data)",
 					[]string{opReq, op}, detail)
 			}
 			if !authOK {
